@@ -651,7 +651,7 @@ func seqStream(r *rand.Rand, n int, big int, withEOS bool) ([]byte, []ZVal) {
 func runSched(c *Ctx) {
 	r := c.Rng
 	// 1. free-running: many runs, every thread count
-	for i := 0; i < c.N(60, 1500); i++ {
+	for i := 0; i < c.N(60, 600); i++ {
 		n := 2 + r.Intn(40)
 		data, want := seqStream(r, n, []int{1, 200000, 3000000}[r.Intn(3)], r.Intn(2) == 0)
 		cs := caseSpec{Sub: "sched", Threads: []int{2, 3, 4, 8, 16}[r.Intn(5)], Validate: r.Intn(2) == 0, Scan: r.Intn(2) == 0, Size: sizeGrid[r.Intn(len(sizeGrid))]}
@@ -799,7 +799,7 @@ func run(c *Ctx) {
 		if !c.Want(sub) {
 			continue
 		}
-		n := map[string]int{"r2m": c.N(220, 6000), "m2r": c.N(220, 6000), "oracle": c.N(300, 9000)}[sub]
+		n := map[string]int{"r2m": c.N(220, 3000), "m2r": c.N(220, 3000), "oracle": c.N(300, 5000)}[sub]
 		for i := 0; i < n; i++ {
 			runCase(c, randCase(r, sub, c.Thorough()), false)
 		}
